@@ -167,6 +167,18 @@ func (i *interpreter) globalCell(g *ssa.Global) *value {
 		return c
 	}
 	cell := zero(mustDeref(g.Type()))
+	if g.Pkg != nil {
+		switch g.Pkg.Pkg.Path() + "." + g.Name() {
+		case "io/fs.ErrNotExist", "os.ErrNotExist":
+			cell = i.env.sentinel("fs.ErrNotExist", "file does not exist")
+		case "io/fs.ErrExist", "os.ErrExist":
+			cell = i.env.sentinel("fs.ErrExist", "file already exists")
+		case "io.EOF":
+			cell = i.env.sentinel("io.EOF", "EOF")
+		case "context.Canceled":
+			cell = i.env.sentinel("context.Canceled", "context canceled")
+		}
+	}
 	i.globals[g] = &cell
 	return &cell
 }
